@@ -33,7 +33,7 @@ def main(tier, seed, budget):
     rep = base.Reporter(PID)
     quick = tier == 'quick'
     crng = base.rng_for(seed, 'c03-configs')
-    cfgs, skipped = configs.pool(crng, n_sub=60 if quick else 300, max_n=5, cap=1000 if quick else 3000)
+    cfgs, skipped = configs.pool(crng, n_sub=60 if quick else 300, max_n=5, cap=1000 if quick else 3000, deep=True)
     hashseeds = [0] if quick else [0, 1, 2, 3]
     deadline = time.time() + (budget or (170 if quick else 1500))
     stats = dict(worlds=0, functions=0, merged=0, mapped=0, nan_chains=0, points=0, inconclusive=0, family_ok=0, family_inconclusive=0, rechecked_equal=0, rechecked_noise=0, nontrivial=set(), events=0,
